@@ -227,6 +227,28 @@ pub fn render(ext: &str, items: &[Item], broken: &Broken) -> Vec<u8> {
 }
 
 impl World {
+  /// a loader that follows redirects itself answers the same module under the final specifier:
+  /// make every `final_spec != entry` answer mirror the final entry's own answer
+  pub fn make_consistent(&mut self) {
+    let total = self.specs.len();
+    for i in 0..total {
+      if let Resp::Module { final_spec, .. } = &self.resp[i] {
+        let f = *final_spec;
+        if f != i {
+          let target = self.resp[f].clone();
+          match target {
+            Resp::Module { final_spec: ff, .. } if ff == f => self.resp[i] = target,
+            _ => {
+              if let Resp::Module { final_spec, .. } = &mut self.resp[i] {
+                *final_spec = i;
+              }
+            }
+          }
+        }
+      }
+    }
+  }
+
   pub fn spec_index(&self, s: &ModuleSpecifier) -> Option<usize> {
     self.specs.iter().position(|x| x == s)
   }
